@@ -2,7 +2,8 @@ import OrixModel.NDArray
 import OrixModel.Unique
 import Driver.Proto
 /-
-op `nd <cls> <shape> <flags> <meta> <prog>`: run a program of structural / element-wise operations (C16) on an
+op `nd <cls> <shape> <flags> <meta> <prog>` (model of the code as it is) and `nds …` (corrected operations,
+`Obj.stepSpec`): run a program of structural / element-wise operations (C16) on an
 object whose elements are symbolic tags `0 … n-1` (C order).  The whole history travels in one line.
 
   cls    Q | R | M | O | V | L          (Quaternion Rotation Misorientation Orientation Vector3d Miller)
@@ -119,18 +120,19 @@ def parseOp (tok : String) (O : Obj Sym) (next : Nat) : Option (Op Sym × Nat) :
     | _ => none
   | _ => none
 
-def runProg (toks : List String) (O : Obj Sym) (next : Nat) : String :=
+def runProg (spec : Bool) (toks : List String) (O : Obj Sym) (next : Nat) : String :=
   match toks with
   | [] => showObj O
   | t :: ts =>
     match parseOp t O next with
     | none => "!err parse"
     | some (op, next') =>
-      match O.step symOps op with
+      match (if spec then O.stepSpec symOps op else O.step symOps op) with
       | .error e => showErr e
-      | .ok O' => runProg ts O' next'
+      | .ok O' => runProg spec ts O' next'
 
-def handle : List String → String
+/-- `spec = true` runs the corrected operations (`Obj.stepSpec`), `false` the model of the code as it is -/
+def handleWith (spec : Bool) : List String → String
   | [cls, shape, flags, md, prog] =>
     match parseCls cls, parseNats shape, parseBits flags, parseNats md with
     | some c, some sh, some fl, some [a, b, p, f] =>
@@ -140,9 +142,12 @@ def handle : List String → String
       else
         let d := (List.range n).zip fl |>.map (fun (j, f) => (fresh j, f))
         let O : Obj Sym := ⟨c, ⟨sh, d⟩, ⟨a, b, p, f⟩⟩
-        runProg (if prog == "-" then [] else splitOn prog ";") O n
+        runProg spec (if prog == "-" then [] else splitOn prog ";") O n
     | _, _, _, _ => "!err parse"
   | _ => "!err bad-op"
+
+def handle : List String → String := handleWith false
+def handleSpec : List String → String := handleWith true
 
 end Orix.Driver.ND
 
